@@ -126,6 +126,8 @@ type Enc struct {
 	axiomsUsed  []string
 	specUsed    map[string]bool
 	foldDone    map[string]bool
+	lemmaDone   map[string]bool
+	lemmaSkipped map[string]string
 	defined     map[string]bool // constants that have a defining equation
 	globalFacts int             // >0: assertions made now hold in every block (facts about shared constants)
 	opaqueUsed  map[string]bool
